@@ -59,6 +59,9 @@ type cStep struct {
 	pattern   string
 	maxLen    int
 	suffix    string
+	regexKind string   // "extract" | "replace"
+	regexOK   bool     // does Go's regexp compile .pattern
+	captures  []string // named captures of .pattern (extract only)
 }
 
 func cFromX(s xStep) cStep {
@@ -185,6 +188,11 @@ func (s cStep) yaml() string {
 		return fmt.Sprintf("{type: redactEmail, key: %s, metricLabel: %s}", jstr(s.key), jstr(s.label))
 	case "ptime":
 		return fmt.Sprintf("{type: parseTime, key: %s, errorLabel: %s}", jstr(s.key), jstr(s.label))
+	case "regex":
+		if s.regexKind == "replace" {
+			return fmt.Sprintf("{type: replace, key: %s, pattern: %s, replacement: \"x\"}", jstr(s.key), jstr(s.pattern))
+		}
+		return fmt.Sprintf("{type: extract, key: %s, pattern: %s}", jstr(s.key), jstr(s.pattern))
 	}
 	panic(s.kind)
 }
@@ -251,6 +259,16 @@ func (s cStep) toks() []string {
 		return []string{"unesc", h(s.key)}
 	case "redact", "ptime":
 		return []string{s.kind, h(s.key), h(s.label)}
+	case "regex":
+		ok := "0"
+		if s.regexOK {
+			ok = "1"
+		}
+		t := []string{"regex", h(s.key), ok, strconv.Itoa(len(s.captures))}
+		for _, c := range s.captures {
+			t = append(t, h(c))
+		}
+		return t
 	}
 	panic(s.kind)
 }
@@ -388,6 +406,23 @@ func cMutate(steps []cStep, target, v int, counter *int) string {
 			if hit() {
 				s.suffix = ""
 				desc = "truncate without suffix"
+			}
+		case "regex":
+			if hit() {
+				s.key = badName(v)
+				desc = s.regexKind + " key -> " + jstr(s.key)
+			}
+			if hit() {
+				s.pattern, s.regexOK, s.captures = []string{"(unclosed", "a{2,1}", "[z-a]", "(?P<f1>x"}[v%4], false, nil
+				desc = s.regexKind + " pattern -> " + jstr(s.pattern)
+			}
+			if s.regexKind == "extract" && hit() {
+				bad := badName(v)
+				if bad == "" || bad == "f0 " {
+					bad = "nosuch" // capture names are identifiers
+				}
+				s.pattern, s.captures = "^(?P<"+bad+">[a-z]+) (?P<f2>.*)$", []string{bad, "f2"}
+				desc = "extract capture name -> " + jstr(bad)
 			}
 		case "unesc", "redact", "ptime":
 			if hit() {
@@ -659,6 +694,22 @@ func (c *cfgComp) Generate(rng *rand.Rand, n int, emit func(Case)) {
 			var cs []cStep
 			for _, s := range xs {
 				cs = append(cs, cFromX(s))
+			}
+			return cs
+		}
+		var extra []cStep
+		if i%2 == 0 {
+			extra = append(extra, cStep{kind: "regex", regexKind: "extract", key: "f0", pattern: "^(?P<f1>[a-z]+)=(?P<f3>[0-9]*)(.*)$", regexOK: true, captures: []string{"f1", "f3"}})
+		}
+		if i%3 == 0 {
+			extra = append(extra, cStep{kind: "regex", regexKind: "replace", key: "f4", pattern: "a+(b)", regexOK: true})
+		}
+		base0 := mk
+		mk = func() []cStep {
+			cs := base0()
+			for _, e := range extra {
+				e.captures = append([]string{}, e.captures...)
+				cs = append(cs, e)
 			}
 			return cs
 		}
